@@ -96,14 +96,14 @@ func (x *Ctx) calleesOfBlock(b *ssa.BasicBlock, seen map[*ssa.Function]bool) []s
 		if callee == nil || !x.W.InLib(callee) {
 			continue
 		}
-		if x.isPrivateHelper(callee) && !dispatchLeaves[callee.Name()] && !seen[callee] {
+		if x.isPrivateHelper(callee) && !dispatchLeaves[x.canon(callee)] && !seen[callee] {
 			seen[callee] = true
 			for _, hb := range callee.Blocks {
 				out = append(out, x.calleesOfBlock(hb, seen)...)
 			}
 			continue
 		}
-		out = append(out, callee.Name())
+		out = append(out, x.canon(callee))
 	}
 	return out
 }
@@ -307,9 +307,9 @@ func (x *Ctx) dispatchArgs(fn *ssa.Function, tkn ssa.Value, via *ssa.Call) strin
 				if callee == nil {
 					continue
 				}
-				switch callee.Name() {
+				switch x.canon(callee) {
 				case "ReadObject", "ReadArray", "readSimpleValue":
-					rc := rcall{name: callee.Name()}
+					rc := rcall{name: x.canon(callee)}
 					if len(c.Call.Args) >= 2 {
 						rc.data = res(c.Call.Args[1])
 					}
@@ -318,7 +318,7 @@ func (x *Ctx) dispatchArgs(fn *ssa.Function, tkn ssa.Value, via *ssa.Call) strin
 					}
 					calls = append(calls, rc)
 				default:
-					if x.isPrivateHelper(callee) && !dispatchLeaves[callee.Name()] && depth < 3 {
+					if x.isPrivateHelper(callee) && !dispatchLeaves[x.canon(callee)] && depth < 3 {
 						nb := map[ssa.Value]ssa.Value{}
 						for i, p := range callee.Params {
 							if i < len(c.Call.Args) {
@@ -441,7 +441,7 @@ func (x *Ctx) storeRules(r *core.Result, rs *core.RuleStat) {
 					continue
 				}
 				s := structOfType(fa.X.Type())
-				if s == nil || s.Field(fa.Field).Name() != "arrVal" {
+				if s == nil || s.Field(fa.Field).Name() != x.fld("arrVal") {
 					continue
 				}
 				appends = append(appends, st)
@@ -521,7 +521,7 @@ func (x *Ctx) storeRules(r *core.Result, rs *core.RuleStat) {
 			okMap := false
 			if isLd {
 				if fa, isFa := ld.X.(*ssa.FieldAddr); isFa {
-					if s := structOfType(fa.X.Type()); s != nil && s.Field(fa.Field).Name() == "objVal" {
+					if s := structOfType(fa.X.Type()); s != nil && s.Field(fa.Field).Name() == x.fld("objVal") {
 						okMap = true
 					}
 				}
@@ -621,7 +621,7 @@ func (x *Ctx) isDecodedValue(v ssa.Value, seen map[ssa.Value]bool) bool {
 	case *ssa.Extract:
 		if c, ok := t.Tuple.(*ssa.Call); ok && t.Index == 0 {
 			if callee := c.Call.StaticCallee(); callee != nil {
-				switch callee.Name() {
+				switch x.canon(callee) {
 				case "ReadObject", "ReadArray", "readSimpleValue":
 					return true
 				}
@@ -704,7 +704,7 @@ func (x *Ctx) isFieldnameOrUnescaped(fn *ssa.Function, v ssa.Value, seen map[ssa
 		return true
 	case *ssa.UnOp:
 		if fa, ok := t.X.(*ssa.FieldAddr); ok {
-			if s := structOfType(fa.X.Type()); s != nil && s.Field(fa.Field).Name() == "fieldNameBuf" {
+			if s := structOfType(fa.X.Type()); s != nil && s.Field(fa.Field).Name() == x.fld("fieldNameBuf") {
 				return true
 			}
 		}
@@ -1084,7 +1084,7 @@ func (x *Ctx) depthExactness(r *core.Result, rs *core.RuleStat) {
 			recv = fn.Params[0]
 		}
 		for _, fs := range x.fieldStores(fn) {
-			if fs.Field == "depth" && fs.Base.isLeaf(recv) {
+			if fs.Field == x.fld("depth") && fs.Base.isLeaf(recv) {
 				if k, ok := fs.Val.constInt(); ok && k == 1 {
 					setOne = true
 				}
@@ -1098,12 +1098,12 @@ func (x *Ctx) depthExactness(r *core.Result, rs *core.RuleStat) {
 				}
 				// the deferred function — a closure or a method of the same reader — stores depth = 0
 				if mc, ok := t.Call.Value.(*ssa.MakeClosure); ok {
-					if cf, ok := mc.Fn.(*ssa.Function); ok && storesZeroDepth(cf) {
+					if cf, ok := mc.Fn.(*ssa.Function); ok && x.storesZeroDepth(cf) {
 						deferred = true
 					}
 				} else if df := t.Call.StaticCallee(); df != nil && w.InLib(df) && len(t.Call.Args) > 0 && t.Call.Args[0] == recv && len(df.Params) > 0 {
 					for _, fs := range x.fieldStores(df) {
-						if fs.Field == "depth" && fs.Base.isLeaf(df.Params[0]) && fs.Always {
+						if fs.Field == x.fld("depth") && fs.Base.isLeaf(df.Params[0]) && fs.Always {
 							if k, ok := fs.Val.constInt(); ok && k == 0 {
 								deferred = true
 							}
@@ -1141,12 +1141,12 @@ func (x *Ctx) depthExactness(r *core.Result, rs *core.RuleStat) {
 	}
 }
 
-func storesZeroDepth(fn *ssa.Function) bool {
+func (x *Ctx) storesZeroDepth(fn *ssa.Function) bool {
 	for _, b := range fn.Blocks {
 		for _, ins := range b.Instrs {
 			if st, ok := ins.(*ssa.Store); ok {
 				if fa, ok := st.Addr.(*ssa.FieldAddr); ok {
-					if s := structOfType(fa.X.Type()); s != nil && s.Field(fa.Field).Name() == "depth" {
+					if s := structOfType(fa.X.Type()); s != nil && s.Field(fa.Field).Name() == x.fld("depth") {
 						if k, ok := constBig(st.Val); ok && k.Sign() == 0 {
 							return true
 						}
